@@ -8,13 +8,18 @@
       [strings_domain]  rules non-empty and blank-free, species labels in [A-Za-z][A-Za-z0-9_]*.
       [rxns_of H]       the stored reactions (rule, reactants, products) as a list; multiset equality is [≡ₚ]. *)
 From stdpp Require Import gmap strings sets.
-From SK Require Import lib.Tok model.C15_Model proof.C15_Proof model.C16_Model proof.C16_Defs proof.C16_Chars proof.C16_Str proof.C16_Sg proof.C16_BipA proof.C16_BipB.
+From SK Require Import lib.Tok model.C15_Model proof.C15_Proof model.C16_Model proof.C16_Defs proof.C16_Chars proof.C16_Str proof.C16_Sg proof.C16_BipA proof.C16_BipB proof.C16_Reach.
 Local Open Scope string_scope.
 
 (** every network reachable through the store operations (C15_inv_reachable) satisfies the decidable premise used below *)
 Theorem C16_inv_wf : ∀ H : net, Inv H → wf16 H.
 Proof. exact Inv_wf16. Qed.
 Print Assumptions C16_inv_wf.
+
+(** every network the correspondence evaluates ([mk_net] = harness/props/C16.py:build: adds, kept species, labels) is well formed *)
+Theorem C16_generated_wf : ∀ kept rxns mols, wf16 (mk_net kept rxns mols).
+Proof. exact mk_net_wf16. Qed.
+Print Assumptions C16_generated_wf.
 
 (** ** Bipartite species/reaction graph *)
 
@@ -34,6 +39,15 @@ Theorem C16_bipartite_roundtrip : ∀ (fl : bflags) (ifl : iflags) (H : net),
     = if f_mol fl && i_mol ifl then filter (λ p, p.1 ∈ occurring H) (mol H) else ∅.
 Proof. exact bipartite_roundtrip. Qed.
 Print Assumptions C16_bipartite_roundtrip.
+
+(** instance: every network reachable by any history of store operations (C15), default prefixes *)
+Theorem C16_bipartite_roundtrip_reachable : ∀ (n : nat) (ops : list op) (k : nat) (fl : bflags) (ifl : iflags),
+  f_eid fl = true → f_stoich fl = true → f_sp fl = Some "S:" → f_rp fl = Some "R:" →
+  edges (bipartite_to_hypergraph ifl (hypergraph_to_bipartite fl
+           (getn (fold_left (λ w o, (step w o).1) ops (init_world n)) k))).1
+  = edges (getn (fold_left (λ w o, (step w o).1) ops (init_world n)) k).
+Proof. exact reachable_bipartite_roundtrip. Qed.
+Print Assumptions C16_bipartite_roundtrip_reachable.
 
 (** the default prefixes never clash *)
 Theorem C16_default_prefixes_ok : ∀ (fl : bflags) (H : net),
